@@ -78,6 +78,7 @@ type modelProbe struct {
 }
 
 type Unit struct {
+	toIntSeen []Term // fixed-width terms that have been converted to integers (for congruence facts)
 	intOf    [][2]Term // (integer value, fixed-width operand) of the conversions the program performs
 	frameOn      bool
 	frameOff     int // >0: writes are not checked (copy-in of interior pointers etc.)
